@@ -113,16 +113,43 @@ def check_propagation(idx: Index, rep: Report) -> None:
                 else:
                     r.fail(inst, Finding("C25.R2", d.fq, f"change-dropped:{unparse(s)}", f"`{unparse(s)}` is not followed on every path by propagate_if_changed({lat}, ChangeResult.CHANGE)", f"{LA}:{s.lineno}"))
     fw = idx.func(SA, "SparseBackwardDataFlowAnalysis.meet")
-    a, b = fw.node.args.args[1].arg, fw.node.args.args[2].arg
+    a = fw.node.args.args[1].arg
     from ..paths import enum_paths as _ep
 
     def _calls_on(pth):
         return [pth.res(e_.value, k) for k, e_ in enumerate(pth.effects) if isinstance(e_, ast.Expr) and isinstance(e_.value, ast.Call)]
 
-    if all(_calls_on(pth) == [f"self.propagate_if_changed({a}, {a}.meet({b}))"] and pth.end == "fall" for pth in _ep(fw.node)):
+    single = len(fw.node.args.args) == 3 and fw.node.args.vararg is None
+    if single and all(_calls_on(pth) == [f"self.propagate_if_changed({a}, {a}.meet({fw.node.args.args[2].arg}))"] and pth.end == "fall" for pth in _ep(fw.node)):
         r.ok(fw.fq, f"{fw.loc} framework meet propagates the change of the lhs lattice")
     else:
-        r.fail(fw.fq, Finding("C25.R2", fw.fq, "framework-meet", "SparseBackwardDataFlowAnalysis.meet must be propagate_if_changed(lhs, lhs.meet(rhs))", fw.loc))
+        # several meets into one lattice: what is handed to propagate_if_changed must contain the result of every one of
+        # them (change accumulation, xsa/accum.py)
+        from ..accum import analyse as _accum
+
+        fcfg = CFG(fw.node)
+        is_src = lambda e_: isinstance(e_, ast.Call) and call_attr(e_) == "meet" and isinstance(e_.func, ast.Attribute) and unparse(e_.func.value) == a
+        props = [c for c in calls_in(fw.node) if unparse(c.func) == "self.propagate_if_changed" and len(c.args) == 2 and unparse(c.args[0]) == a]
+        srcs = [c for c in calls_in(fw.node) if is_src(c)]
+        if not props or not srcs:
+            r.fail(fw.fq, Finding("C25.R2", fw.fq, "framework-meet", "SparseBackwardDataFlowAnalysis.meet must hand the result of lhs.meet(...) to propagate_if_changed(lhs, ...)", fw.loc))
+        else:
+            IN_, names_ = _accum(fw.node, fcfg, is_src)
+            bad_ = None
+            for c in props:
+                v_ = c.args[1]
+                st_ = IN_.get(fcfg.node_of(c))
+                if is_src(v_) and len(srcs) == 1:
+                    continue
+                if isinstance(v_, ast.Name) and v_.id in names_ and st_ is not None:
+                    if not st_.cover[v_.id]:
+                        bad_ = (c, v_.id)
+                else:
+                    raise AnalysisError(f"{fw.fq}: what `{unparse(c)}` reports was not understood")
+            if bad_ is None:
+                r.ok(fw.fq, f"{fw.loc} framework meet reports every change of the lhs lattice")
+            else:
+                r.fail(fw.fq, Finding("C25.R2", fw.fq, "change-overwritten", f"`{unparse(bad_[0])}`: `{bad_[1]}` does not contain the result of every `{a}.meet(...)` made before it (a later NO_CHANGE overwrites an earlier CHANGE): the lattice changed but its dependents are not re-enqueued, so the result depends on the schedule", f"{fw.module.relpath}:{bad_[0].lineno}"))
 
 
 def check_dependencies(idx: Index, rep: Report) -> None:
